@@ -359,7 +359,7 @@ def _r2_r5(ctx, m):
 
 def _loop_sites(ctx, label, rel, cfg, fname, field, lhs_pat):
     """In function `fname`: exactly one loop writes `lhs[ <index> ] = {{ entry }}`; it must iterate ode.jac.<field>."""
-    items = J.flatten(ctx.tree, rel, cfg)
+    items = J.propagate_sets(J.flatten(ctx.tree, rel, cfg))      # `{% set %}` variables read as the expressions they stand for
     sk = Skel(items)
     key = f"{label}:{fname}:ode.jac.{field}"
     hits = []
@@ -408,7 +408,7 @@ def _r3(ctx):
     _loop_sites(ctx, "cvode/sparse", JAC, sp, "Jac", "vals", r"data\s*\[\s*\x00(\d+)\x00\s*\]")
     _loop_sites(ctx, "cvode/cusparse", JAC, cu, "JacKernel", "vals", r"data\s*\[\s*jistart\s*\+\s*\x00(\d+)\x00\s*\]")
     # cusparse InitJac: initialiser lists are the whole rows / cols sequences
-    items = J.flatten(ctx.tree, JAC, cu)
+    items = J.propagate_sets(J.flatten(ctx.tree, JAC, cu))
     sk = Skel(items)
     outs = [it for it, off in sk.items_in("InitJac") if it[0] == "out"]
     got = {}
@@ -417,7 +417,10 @@ def _r3(ctx):
         p = J.path(base)
         names = [f[0] for f in fs]
         if p in ("ode.jac.rows", "ode.jac.cols"):
-            good = names[:2] == ["map", "join"] and all(n in ("map", "join", "stmwrap") for n in names)
+            # `join` applies str() to every element itself: a preceding map('string') is optional
+            if fs and fs[0][0] == "map" and fs[0][1] == (("const", "string"),) and not fs[0][2]:
+                names = names[1:]
+            good = names[:1] == ["join"] and all(n == "stmwrap" for n in names[1:])
             got[p] = (good, o)
     for p, arr in (("ode.jac.rows", "rowptrs"), ("ode.jac.cols", "colvals")):
         if p not in got:
@@ -604,6 +607,9 @@ MUTANTS = [
     {"name": "nequations-macro", "file": MACROS, "old": "#define NEQUATIONS (NSPECIES + THERMAL)", "new": "#define NEQUATIONS (NSPECIES)", "rules": ["R4"]},
 ]
 BENIGN = [
+    {"name": "initjac-join-without-map", "file": JAC, "old": " | map('string') | join(", "new": " | join(", "count": 2},
+    {"name": "kernel-replace-in-set-variable", "file": JAC, "old": "data[jistart + {{loop.index0}}] = {{ data | replace(\"y[IDX\", \"y_cur[IDX\") | stmwrap(80, 12) }};",
+     "new": "{% set cur = data | replace(\"y[IDX\", \"y_cur[IDX\") -%}data[jistart + {{loop.index0}}] = {{ cur | stmwrap(80, 12) }};"},
     {"name": "arrays-renamed", "edits": [
         {"file": T, "old": "jacrhs", "new": "jacent", "count": 13},
         {"file": T, "old": "rhs[", "new": "derivs[", "count": 9},
